@@ -1,8 +1,9 @@
 /-
   C01 driver — the Box model as a small state machine over exact rationals.
-  One request line -> one reply line.  State: the current `Box Rat` (no reciprocal cache: `recip`
-  and `c2r` are recomputed from the current vectors, so a stale cache in the implementation shows
-  up as a disagreement).
+  One request line -> one reply line.  State: the Box *object* `CBox Rat` of Atomman/C01.lean (current cell +
+  the lazily computed reciprocal vectors, emptied by everything that assigns `vects`); Proofs/C01_Object.lean
+  shows that this object reports, for every call sequence, what the cache-free cell would
+  (`obj_run_refines`), so a stale cache in the implementation shows up as a disagreement.
 
   setters (reply `ok` or `err:…`):
     new                                             Box()
@@ -18,6 +19,7 @@
     get        vects(9) origin(3) a² b² c² b·c a·c a·b volume is_lammps_norm
     lammps     lx ly lz xy xz yz xlo xhi ylo yhi zlo zhi        | err:assert
     recip      reciprocal_vects(9)                               | err:value (singular)
+    cached     1 if reciprocal vectors are cached in the model object
     r2c x y z  position_relative_to_cartesian                    | err:value (not 3 numbers)
     c2r x y z  position_cartesian_to_relative                    | err:value
     inside x y z    inside(inclusive=True) inside(inclusive=False) margin
@@ -30,91 +32,101 @@ open Atomman Atomman.C01
 /-- the double nearest to `1e-9` (the literal `atol=1e-9` of the setter), exactly. -/
 def thr : Rat := mkRat 4835703278458517 4835703278458516698824704
 
-def unitBox : Box Rat := ⟨⟨⟨1, 0, 0⟩, ⟨0, 1, 0⟩, ⟨0, 0, 1⟩⟩, ⟨0, 0, 0⟩⟩
-
 def showBox (b : Box Rat) : String := showRats (b.vects.toList ++ b.origin.toList)
 
-def setOr (old : Box Rat) (r : Option (Box Rat)) (e : String) : Box Rat × String :=
-  match r with
-  | some b => (b, "ok")
-  | none => (old, err e)
+/-- run a setter call on the object; `e` is the error class the real code raises when it refuses. -/
+def doSet (c : CBox Rat) (s : SetOp Rat) (e : String) : CBox Rat × String :=
+  match c.set thr s with
+  | (c', .ok) => (c', "ok")
+  | (c', _) => (c', err e)
 
-def stepC01 (st : Box Rat) (toks : List String) : Box Rat × String :=
+/-- run a read call on the object (the cache may be filled by it). -/
+def doRead (c : CBox Rat) (r : ReadOp Rat) : CBox Rat × String :=
+  match c.read r with
+  | (c', .mat m) => (c', showRats m.toList)
+  | (c', .vec v) => (c', showRats v.toList)
+  | (c', .flag b) => (c', showBool b)
+  | (c', .rejected) => (c', err "value")
+  | (c', .ok) => (c', "ok")
+
+def stepC01 (c : CBox Rat) (toks : List String) : CBox Rat × String :=
+  let st := c.box
   match toks with
-  | ["new"] => (setVects thr unitBox.vects unitBox.origin, "ok")
-  | ["thr"] => (st, showRat thr)
+  | ["new"] => doSet CBox.fresh .reset "op"
+  | ["thr"] => (c, showRat thr)
   | "vects" :: rest =>
     match parseRats? rest with
-    | some [a, b, c, d, e, f, g, h, i, ox, oy, oz] =>
-      (setVects thr ⟨⟨a, b, c⟩, ⟨d, e, f⟩, ⟨g, h, i⟩⟩ ⟨ox, oy, oz⟩, "ok")
-    | _ => (st, err "format")
+    | some [a, b, c', d, e, f, g, h, i, ox, oy, oz] =>
+      doSet c (.vects ⟨⟨a, b, c'⟩, ⟨d, e, f⟩, ⟨g, h, i⟩⟩ ⟨ox, oy, oz⟩) "op"
+    | _ => (c, err "format")
   | "attr_vects" :: rest =>
     match parseRats? rest with
-    | some [a, b, c, d, e, f, g, h, i] => (setVectsAttr thr st ⟨⟨a, b, c⟩, ⟨d, e, f⟩, ⟨g, h, i⟩⟩, "ok")
-    | _ => (st, err "format")
+    | some [a, b, c', d, e, f, g, h, i] => doSet c (.attrVects ⟨⟨a, b, c'⟩, ⟨d, e, f⟩, ⟨g, h, i⟩⟩) "op"
+    | _ => (c, err "format")
   | "attr_origin" :: rest =>
     match parseRats? rest with
-    | some [ox, oy, oz] => (setOriginAttr st ⟨ox, oy, oz⟩, "ok")
-    | _ => (st, err "format")
+    | some [ox, oy, oz] => doSet c (.attrOrigin ⟨ox, oy, oz⟩) "op"
+    | _ => (c, err "format")
   | "lengths" :: rest =>
     match parseRats? rest with
     | some [lx, ly, lz, xy, xz, yz, ox, oy, oz] =>
-      setOr st (setLengths? thr ⟨lx, ly, lz, xy, xz, yz⟩ ⟨ox, oy, oz⟩) "assert"
-    | _ => (st, err "format")
+      doSet c (.lengths ⟨lx, ly, lz, xy, xz, yz⟩ ⟨ox, oy, oz⟩) "assert"
+    | _ => (c, err "format")
   | "hilos" :: rest =>
     match parseRats? rest with
     | some [xlo, xhi, ylo, yhi, zlo, zhi, xy, xz, yz] =>
-      setOr st (setHiLos? thr ⟨xlo, xhi, ylo, yhi, zlo, zhi, xy, xz, yz⟩) "assert"
-    | _ => (st, err "format")
+      doSet c (.hilos ⟨xlo, xhi, ylo, yhi, zlo, zhi, xy, xz, yz⟩) "assert"
+    | _ => (c, err "format")
   | "abc" :: rest =>
     match parseRats? rest with
-    | some [a, b, c, al, be, ga, ca, cb, cg, ly, lz, ox, oy, oz] =>
-      if !(anglesOk al be ga) then (st, err "value") else
-      setOr st (setAbc? thr a b c ca cb cg ly lz ⟨ox, oy, oz⟩) "assert"
-    | _ => (st, err "format")
-  | ["abcres", a, b, c, ca, cb, cg, ly, lz] =>
-    match parseRats? [a, b, c, ca, cb, cg, ly, lz] with
-    | some [_, b, c, ca, cb, cg, ly, lz] =>
-      if ly = 0 then (st, err "value") else
-      (st, showRats [ly * ly - abcLySq b cg, lz * lz - abcLzSq b c ca cb cg ly])
-    | _ => (st, err "format")
+    | some [a, b, c', al, be, ga, ca, cb, cg, ly, lz, ox, oy, oz] =>
+      -- ValueError from the angle guard, AssertionError from set_lengths
+      doSet c (.abc al be ga a b c' ca cb cg ly lz ⟨ox, oy, oz⟩) (if anglesOk al be ga then "assert" else "value")
+    | _ => (c, err "format")
+  | ["abcres", a, b, c', ca, cb, cg, ly, lz] =>
+    match parseRats? [a, b, c', ca, cb, cg, ly, lz] with
+    | some [_, b, c', ca, cb, cg, ly, lz] =>
+      if ly = 0 then (c, err "value") else
+      (c, showRats [ly * ly - abcLySq b cg, lz * lz - abcLzSq b c' ca cb cg ly])
+    | _ => (c, err "format")
   | ["get"] =>
-    (st, showBox st ++ " " ++ showRats [a2 st, b2 st, c2 st, dotBC st, dotAC st, dotAB st, volume st]
+    (c, showBox st ++ " " ++ showRats [a2 st, b2 st, c2 st, dotBC st, dotAC st, dotAB st, volume st]
       ++ " " ++ showBool st.isLammpsNorm)
   | ["lammps"] =>
     match lengths? st, hilos? st with
     | some l, some h =>
-      (st, showRats [l.lx, l.ly, l.lz, l.xy, l.xz, l.yz, h.xlo, h.xhi, h.ylo, h.yhi, h.zlo, h.zhi])
-    | _, _ => (st, err "assert")
-  | ["recip"] =>
-    if st.vects.det = 0 then (st, err "value") else (st, showRats st.recip.toList)
+      (c, showRats [l.lx, l.ly, l.lz, l.xy, l.xz, l.yz, h.xlo, h.xhi, h.ylo, h.yhi, h.zlo, h.zhi])
+    | _, _ => (c, err "assert")
+  | ["recip"] => doRead c .recip
+  | ["cached"] => (c, showBool c.cache.isSome)
   | "r2c" :: rest =>
     match parseRats? rest with
-    | some [x, y, z] => (st, showRats (st.relToCart ⟨x, y, z⟩).toList)
-    | some _ => (st, err "value")
-    | none => (st, err "format")
+    | some [x, y, z] => doRead c (.r2c ⟨x, y, z⟩)
+    | some _ => (c, err "value")
+    | none => (c, err "format")
   | "c2r" :: rest =>
     match parseRats? rest with
-    | some [x, y, z] =>
-      if st.vects.det = 0 then (st, err "value") else (st, showRats (st.cartToRel ⟨x, y, z⟩).toList)
-    | some _ => (st, err "value")
-    | none => (st, err "format")
+    | some [x, y, z] => doRead c (.c2r ⟨x, y, z⟩)
+    | some _ => (c, err "value")
+    | none => (c, err "format")
   | "inside" :: rest =>
     match parseRats? rest with
     | some [x, y, z] =>
-      if st.vects.det = 0 then (st, err "value") else
+      if st.vects.det = 0 then (c, err "value") else
       let p : V3 Rat := ⟨x, y, z⟩
-      (st, showBool (inside st Lams.ones p true) ++ " " ++ showBool (inside st Lams.ones p false) ++ " "
-        ++ showRat (faceMargin (st.cartToRel p)))
-    | _ => (st, err "format")
+      let (c1, r1) := doRead c (.inside Lams.ones p true)
+      let (c2, r2) := doRead c1 (.inside Lams.ones p false)
+      (c2, r1 ++ " " ++ r2 ++ " " ++ showRat (faceMargin (st.cartToRel p)))
+    | _ => (c, err "format")
   | "outside" :: rest =>
     match parseRats? rest with
     | some [x, y, z] =>
-      if st.vects.det = 0 then (st, err "value") else
+      if st.vects.det = 0 then (c, err "value") else
       let p : V3 Rat := ⟨x, y, z⟩
-      (st, showBool (outside st Lams.ones p true) ++ " " ++ showBool (outside st Lams.ones p false) ++ " "
-        ++ showRat (faceMargin (st.cartToRel p)))
-    | _ => (st, err "format")
-  | _ => (st, err "op")
+      let (c1, r1) := doRead c (.outside Lams.ones p true)
+      let (c2, r2) := doRead c1 (.outside Lams.ones p false)
+      (c2, r1 ++ " " ++ r2 ++ " " ++ showRat (faceMargin (st.cartToRel p)))
+    | _ => (c, err "format")
+  | _ => (c, err "op")
 
-def main : IO Unit := runDriverS stepC01 unitBox
+def main : IO Unit := runDriverS stepC01 CBox.fresh
